@@ -47,6 +47,8 @@ func errClass(err error) string {
 		return "e2"
 	case errors.Is(err, context.Canceled), errors.Is(err, context.DeadlineExceeded):
 		return "ctx"
+	case err.Error() == "netty: channel closed": // netty.ErrChannelClosed (by text: the symbol does not exist before the fix)
+		return "chclosed"
 	case errors.Is(err, netty.ErrAsyncNoSpace):
 		return "nospace"
 	case errors.Is(err, io.ErrShortWrite):
